@@ -19,3 +19,18 @@ void h_tb_project(void)
              __CPROVER_assert(valid_ok && valid_cid == cid_state, "C16.valid ... and the validity checker accepted that content"); REACH("projected"); }
     else REACH("rejected");
 }
+/* ---- TangentBundleStateSpace::geodesicInterpolate: the lazily interpolated state is handed out only after project() accepted it; otherwise the first
+ * state of the geodesic (a state that is on the manifold: discreteGeodesic starts from a satisfied `from`) is returned. ---- */
+int base_interp_ret, GEO0; bool PROJ_RET; int projected; unsigned proj_calls;
+static int BASE_GEODESIC_INTERPOLATE(void) { return base_interp_ret; }
+static bool TB_PROJECT(int st) { proj_calls++; projected = st; return PROJ_RET; }
+int tb_geodesicInterpolate(void)
+/*@BODY tb_geodesicInterpolate@*/
+void h_tb_interpolate(void)
+{
+    __CPROVER_assume(base_interp_ret != GEO0); proj_calls = 0;
+    int r = tb_geodesicInterpolate();
+    __CPROVER_assert(proj_calls == 1 && projected == base_interp_ret, "the lazily interpolated state goes through project()");
+    __CPROVER_assert(PROJ_RET ? r == base_interp_ret : r == GEO0, "C16.lazy the interpolated state is returned only if it was projected and validated, otherwise the start of the geodesic");
+    if (PROJ_RET) REACH("projected"); else REACH("fallback");
+}
